@@ -126,7 +126,7 @@ def check(case):
                 if b[0] >= D and b[0] > 0:
                     break
                 val = O.value_at(pts, b[0], (4, 4))
-                if 96 * val[0] / val[1] != b[1]:
+                if 4 * (cfg.get("ppqn") or 24) * val[0] / val[1] != b[1]:
                     out.fail("signature-grid", f"bar at {b[0]} should last {b[1]} but track 0's signatures {pts} say {val}")
                     return out
         else:
